@@ -1043,6 +1043,11 @@ func (w *wbuild) checkBuild(res *InvResult, req BuildReq, opts InvOpts, cm *cach
 		default:
 			report("C06", "inexact-restore", diffClass(want, got), fmt.Sprintf("%s was restored from the cache but the result differs from what was cached: %s", l, diff))
 			report("C01", "restored-output-differs-from-clean-build", diffClass(want, got), fmt.Sprintf("%s was not executed and its outputs differ from a clean build of the current sources: %s", l, diff))
+			if w.fs != nil {
+				// fault runs: lost or unreadable cache data must lead to re-execution or a reported
+				// failure, never to a successful build with corrupt / partial outputs (C07)
+				report("C07", "corrupt-restore-after-cache-fault", diffClass(want, got), fmt.Sprintf("after cache faults / lost entries %s was restored with outputs that differ from a clean build while the build reported success: %s", l, diff))
+			}
 		}
 	}
 }
